@@ -1,12 +1,14 @@
 (** Property C06 — the container TOC and the attached metadata objects stay in exact
     one-to-one sync.  This file holds only the property theorems; each is closed by [exact]
-    of a lemma proved in [Toc/SyncProofs.v] and followed by [Print Assumptions].
+    of a lemma proved in [Toc/SyncProofs.v], [Toc/SyncMoveCopy.v] or [Toc/SyncCopyMeta.v] and
+    followed by [Print Assumptions].
 
     [env_ok E] (a premise, checked by the harness for the environment it registers): schema
     entry-point names contain no ["="], are not reserved, parent paths are duplicate-free,
     end in the schema itself and are prefix-closed. *)
 From Coq Require Import List String Bool NArith.
-From MV Require Import Base.Sx Toc.Layout Toc.UserView Toc.Sync Toc.SyncProofs Toc.SyncMoveCopy.
+From MV Require Import Base.Sx Toc.Layout Toc.UserView Toc.Sync Toc.SyncProofs Toc.SyncMoveCopy
+  Toc.SyncCopyMeta.
 Import ListNotations.
 Local Open Scope string_scope.
 Local Open Scope list_scope.
@@ -20,23 +22,19 @@ Print Assumptions C06_sync_init.
 
 (** *** One operation
 
-    Full statement demanded:
+    Full statement demanded (and proved, for EVERY operation, without premise):
       [forall E st o, env_ok E = true -> Sync E st -> Sync E (fst (s_step E st o))].
-    Proved below for every operation except ONE case: a copy WITH metadata
-    ([without_meta = false], [CCopy] or copy into a group object) that SUCCEEDS and re-uuids
-    the copied objects ([reuuid_region]).  For that case the file part [RawStep] stays a
-    premise ([C06_sync_step_general]); the index part is proved; [RawStep] is discharged per
-    history by the verified checker ([C06_checker_sound], [C06_example_heavy]) and is what the
-    harness evaluates ([syncb]) after every model step.  Everything else is unconditional:
-    attach / detach with every refusal, delete (datasets and whole groups), MOVE of datasets
-    (sidecar follows) and of groups (links relinked), COPY WITHOUT metadata of datasets and
-    groups (plain and into a group object), copy of a dataset that has no metadata (the
-    [RFailLate] case), every refused call, data operations, reopen. *)
+    Attach / detach with every refusal, delete (datasets and whole groups), MOVE of datasets
+    (sidecar follows) and of groups (links relinked), COPY without metadata, COPY WITH metadata
+    of datasets (sidecar copied) and groups, plain and into a group object -- the copied
+    objects get fresh uuids and links ([reuuid_region]; followed with a pending-set invariant
+    in [Toc/SyncCopyMeta.v]) --, the late failure of copying a dataset that has no metadata,
+    every refused call, data operations, reopen, patch boundary. *)
 
-Theorem C06_sync_step_partial : forall E st o,
-  env_ok E = true -> Sync E st -> copies_meta o = false -> Sync E (fst (s_step E st o)).
-Proof. exact sync_step_no_meta_copy. Qed.
-Print Assumptions C06_sync_step_partial.
+Theorem C06_sync_step : forall E st o,
+  env_ok E = true -> Sync E st -> Sync E (fst (s_step E st o)).
+Proof. exact sync_step_all. Qed.
+Print Assumptions C06_sync_step.
 
 (** Any operation that does not return [ROk] -- refused, or the late failure of copying a
     dataset without metadata -- keeps the state in sync ... *)
@@ -52,19 +50,28 @@ Theorem C06_sync_step_refused : forall E st o,
 Proof. exact sync_step_refused. Qed.
 Print Assumptions C06_sync_step_refused.
 
-(** All operations; the file part is a premise only for a successful copy with metadata. *)
-Theorem C06_sync_step_general : forall E st o,
-  env_ok E = true -> Sync E st ->
-  (copies_meta o = true -> snd (s_step E st o) = ROk ->
-   match o with SOp co => RawStep E st co | _ => True end) ->
-  Sync E (fst (s_step E st o)).
-Proof. exact sync_step_general. Qed.
-Print Assumptions C06_sync_step_general.
-
 (** The file part of a move (dataset or group), unconditionally. *)
 Theorem C06_move_file_part : forall E st cwd s d, Sync E st -> RawStep E st (CMove cwd s d).
 Proof. exact raw_step_move. Qed.
 Print Assumptions C06_move_file_part.
+
+(** The file part of a copy -- with or without metadata, of a dataset or a group, plain or
+    into a group object, successful or not. *)
+Theorem C06_copy_file_part : forall E st co,
+  env_ok E = true -> Sync E st ->
+  match co with CCopy _ _ _ _ | CCopyInto _ _ _ _ _ => True | _ => False end ->
+  RawStep E st co.
+Proof. exact raw_step_copy_all. Qed.
+Print Assumptions C06_copy_file_part.
+
+(** The re-uuid fold itself: a tree in sync plus a structure-preserving copy [rho S] of some
+    of its entries into a free region, run through [reuuid_region], is in sync again. *)
+Theorem C06_reuuid_fold : forall E B n pr rho S region,
+  env_ok E = true -> SyncRaw E B n pr -> CopyOk B rho S region ->
+  SyncRaw E (fst (reuuid_region (B ++ tmap rho S) n pr region))
+          (snd (reuuid_region (B ++ tmap rho S) n pr region)) pr.
+Proof. exact reuuid_sync. Qed.
+Print Assumptions C06_reuuid_fold.
 
 (** The executable checker of the file part is sound. *)
 Theorem C06_checker_sound : forall E T n pr, syncb_raw E T n pr = true -> SyncRaw E T n pr.
@@ -73,18 +80,16 @@ Print Assumptions C06_checker_sound.
 
 (** *** Histories *)
 
-(** Every state reached by a history is in sync; only successful copies with metadata carry
-    the file part as a premise ([meta_copies_ok] is [True] for every other step). *)
-Theorem C06_all_reachable_partial : forall E ops st,
-  env_ok E = true -> Sync E st -> meta_copies_ok E st ops -> Sync E (s_run E st ops).
-Proof. exact sync_run_general. Qed.
-Print Assumptions C06_all_reachable_partial.
+(** Every state reached by any history from a state in sync is in sync. *)
+Theorem C06_all_reachable : forall E ops st,
+  env_ok E = true -> Sync E st -> Sync E (s_run E st ops).
+Proof. exact sync_run_all. Qed.
+Print Assumptions C06_all_reachable.
 
-Theorem C06_all_reachable_no_meta_copy : forall E ops,
-  env_ok E = true -> forallb (fun o => negb (copies_meta o)) ops = true ->
-  Sync E (s_run E init_ss ops).
-Proof. exact sync_run_no_meta_copy. Qed.
-Print Assumptions C06_all_reachable_no_meta_copy.
+Theorem C06_all_reachable_from_init : forall E ops,
+  env_ok E = true -> Sync E (s_run E init_ss ops).
+Proof. exact sync_reachable. Qed.
+Print Assumptions C06_all_reachable_from_init.
 
 (** *** Reopening: the index rebuilt from disk is the one maintained incrementally
     (extensionally, as Python compares dicts and sets). *)
@@ -169,6 +174,15 @@ Proof. exact example_move_copy. Qed.
     verified checker. *)
 Example C06_example_heavy : Sync E0 (s_run E0 init_ss ops_heavy).
 Proof. exact example_heavy_in_sync. Qed.
+
+(** Copies WITH metadata of a group, of a dataset with sidecar, into a group object (with and
+    without a name), then move, delete, reopen: every call succeeds, no premise, no checker;
+    six objects are attached at the end and nine uuids were handed out. *)
+Example C06_example_copy_meta :
+  Sync E0 (s_run E0 init_ss ops_copy_meta) /\
+  List.length (objs (raw (cs (s_run E0 init_ss ops_copy_meta)))) = 6 /\
+  next_id (cs (s_run E0 init_ss ops_copy_meta)) = 9%N.
+Proof. exact example_copy_meta. Qed.
 
 (** Pinned [_set_raw] (object stored before [register]): a failing schema export leaves an
     object without link -- not in sync. *)
